@@ -1,7 +1,7 @@
 """Atheris harness for C03 (thorough tier): coverage-guided search on the PDU decoders with the oracle of props/c03.py
 ('decode' sub-check).  Run by props/c03.py::drv_atheris in a subprocess:
 
-    python vp/c03_atheris.py -runs=N -max_total_time=T -timeout=0 -seed=S corpus_dir
+    python vp/c03_atheris.py -runs=N -max_total_time=T -timeout=600 -seed=S corpus_dir
 
 Input layout: byte 0 selects the decoder (index modulo the number of decoders), the remaining bytes are the bit string
 (zero-padded / truncated to the decoder's fixed length; the UDP/IPv4 decoders take what is there, at least 40 bits).
